@@ -14,7 +14,7 @@ single-element constants within tolerance. The named-operator clause needs the 9
 different operators.
 
 T2 (exact algebra, values in any type `α` with the operations as parameters — in particular any
-commutative ring / field): Reciprocal, Silu, Swish (with the `alpha = 1` coincidence), ReduceMean
+commutative ring / field): Silu, Swish (with the `alpha = 1` coincidence), ReduceMean
 axes-input vs attribute form (with the `noop_with_empty_axes` witness for the pre-fix code),
 Transpose fused into MatMul at the index level, Cast to the value's own type.
 -/
@@ -23,20 +23,20 @@ namespace RtenVerif.Pattern
 /-- **T4.** -/
 theorem c01_matcher_sound (g : GView) (cfg : MatchCfg) (hk : cfg.strictKeys = true)
     (fuel : Nat) (p : Pat) (v : Nat) (s' : Syms) (h : matchPat g cfg fuel p v [] = some s') :
-    embeds g fuel p v s' :=
+    embeds g cfg fuel p v s' :=
   (matchPat_sound g cfg hk fuel p v [] s' h).2
 
 /-- Symbols are bound consistently: two occurrences of the same symbol embedded under one binding
 sit on the same node. -/
-theorem c01_symbol_consistent (g : GView) (f1 f2 : Nat) (name : String) (c1 c2 : Bool) (v1 v2 : Nat) (σ : Syms)
-    (h1 : embeds g (f1 + 1) (.sym name c1) v1 σ) (h2 : embeds g (f2 + 1) (.sym name c2) v2 σ) : v1 = v2 := by
+theorem c01_symbol_consistent (g : GView) (cfg : MatchCfg) (f1 f2 : Nat) (name : String) (c1 c2 : Bool) (v1 v2 : Nat) (σ : Syms)
+    (h1 : embeds g cfg (f1 + 1) (.sym name c1) v1 σ) (h2 : embeds g cfg (f2 + 1) (.sym name c2) v2 σ) : v1 = v2 := by
   simp only [embeds] at h1 h2
   have := h1.1.symm.trans h2.1
   exact Option.some.inj this
 
 /-- Named operator patterns are bound to a single operator. -/
-theorem c01_key_single_operator (g : GView) (f1 f2 : Nat) (n1 n2 key : String) (p1 p2 : List Pat) (v1 v2 : Nat) (σ : Syms)
-    (h1 : embeds g (f1 + 1) (.op n1 p1 (some key)) v1 σ) (h2 : embeds g (f2 + 1) (.op n2 p2 (some key)) v2 σ) :
+theorem c01_key_single_operator (g : GView) (cfg : MatchCfg) (f1 f2 : Nat) (n1 n2 key : String) (p1 p2 : List Pat) (v1 v2 : Nat) (σ : Syms)
+    (h1 : embeds g cfg (f1 + 1) (.op n1 p1 (some key)) v1 σ) (h2 : embeds g cfg (f2 + 1) (.op n2 p2 (some key)) v2 σ) :
     ∃ o1 o2, (g.opById v1 = some o1 ∨ (g.values.contains v1 = true ∧ g.source v1 = some o1)) ∧
       (g.opById v2 = some o2 ∨ (g.values.contains v2 = true ∧ g.source v2 = some o2)) ∧ o1.oid = o2.oid := by
   simp only [embeds] at h1 h2
@@ -44,9 +44,26 @@ theorem c01_key_single_operator (g : GView) (f1 f2 : Nat) (n1 n2 key : String) (
   obtain ⟨o2, w2, _, _, k2, _⟩ := h2
   exact ⟨o1, o2, w1, w2, Option.some.inj ((k1 key rfl).symm.trans (k2 key rfl))⟩
 
-/-- Constant patterns only match float constants with exactly one element. -/
+/-- **Rank clause (audit H1).** A matched operator pattern (fixed matcher, `rankGuard`) satisfies the
+rank condition at the operator and at every inner operator of its associative chain; together with
+`flattenGraph_consumer` (each chain operand is a direct input of a chain operator) and
+`c01_scalar_const_keeps_shape` this is what keeps the output shape when the fusion drops the constant. -/
+theorem c01_match_rank_clause (g : GView) (cfg : MatchCfg) (hk : cfg.strictKeys = true) (hr : cfg.rankGuard = true)
+    (fuel : Nat) (name : String) (pins : List Pat) (key : Option String) (v : Nat) (s' : Syms)
+    (h : matchPat g cfg (fuel + 1) (.op name pins key) v [] = some s') :
+    ∃ o, (g.opById v = some o ∨ (g.values.contains v = true ∧ g.source v = some o)) ∧
+      RankClause g cfg.rank name pins o := by
+  have := (matchPat_sound g cfg hk (fuel + 1) _ v [] s' h).2
+  simp only [embeds] at this
+  obtain ⟨o, hw, _, _, _, hrk, _⟩ := this
+  exact ⟨o, hw, hrk hr⟩
+
+/-- Constant patterns only match float constants with exactly one element whose (finite) value `x`
+satisfies `|x − v| ≤ tol` as exact rationals, `tol` = 1e-4 (as f32) or 0 for exact patterns. -/
 theorem c01_const_single_element (c : ConstInfo) (bits : Nat) (exact : Bool) (h : constMatches c bits exact = true) :
-    c.dtype = "f" ∧ c.shape.foldl (· * ·) 1 = 1 ∧ ∃ b, c.bits = [b] := by
+    c.dtype = "f" ∧ c.shape.foldl (· * ·) 1 = 1 ∧
+      ∃ b x v t, c.bits = [b] ∧ f32Rat b = some x ∧ f32Rat bits = some v ∧
+        f32Rat (if exact then 0 else tolBits) = some t ∧ absDiffLe x v t = true := by
   unfold constMatches at h
   simp only [Bool.and_eq_true, beq_iff_eq] at h
   obtain ⟨⟨h1, h2⟩, h3⟩ := h
@@ -55,8 +72,27 @@ theorem c01_const_single_element (c : ConstInfo) (bits : Nat) (exact : Bool) (h 
   | nil => simp [hb] at h3
   | cons b rest =>
     cases rest with
-    | nil => exact ⟨b, rfl⟩
+    | nil =>
+      simp only [hb] at h3
+      cases hx : f32Rat b with
+      | none => simp [hx] at h3
+      | some x =>
+        cases hv : f32Rat bits with
+        | none => simp [hx, hv] at h3
+        | some v =>
+          cases ht : f32Rat (if exact then 0 else tolBits) with
+          | none => simp [hx, hv, ht] at h3
+          | some t =>
+            simp only [hx, hv, ht] at h3
+            exact ⟨b, x, v, t, rfl, hx, rfl, rfl, h3⟩
     | cons b2 r => simp [hb] at h3
+
+/-- `absDiffLe` is the stated inequality on the rationals `m·2^e` (common exponent `e₀`). -/
+theorem absDiffLe_spec (a b t : Int × Int) :
+    absDiffLe a b t = true ↔
+      (a.1 * (2 : Int) ^ (a.2 - min a.2 (min b.2 t.2)).toNat - b.1 * (2 : Int) ^ (b.2 - min a.2 (min b.2 t.2)).toNat).natAbs
+        ≤ (t.1 * (2 : Int) ^ (t.2 - min a.2 (min b.2 t.2)).toNat).natAbs := by
+  simp [absDiffLe]
 
 /-- f32 bit patterns: 1.0, 1.00005, 1.001; tolerance 1e-4. -/
 example : constMatches ⟨0, "f", [1, 1], [1065353216], []⟩ 1065353216 false = true := by decide
@@ -71,7 +107,7 @@ def gSiluM : GView :=
     consts := [], values := [0, 2, 3] }
 def siluPM : Pat := .op "Mul" [.sym "x" false, .op "Sigmoid" [.sym "x" false] none] none
 def cfgM : MatchCfg := { strictKeys := true, rankGuard := true, rank := fun _ => none }
-example : embeds gSiluM 16 siluPM 11 [("x", 0)] :=
+example : embeds gSiluM cfgM 16 siluPM 11 [("x", 0)] :=
   c01_matcher_sound gSiluM cfgM rfl 16 siluPM 11 _ (by decide)
 
 /-- Pre-fix matcher (`strictKeys = false`): the SafeSoftmax pattern "matches" two different Softmax
@@ -95,10 +131,6 @@ variable {α : Type}
 
 /-! ## Reciprocal, Silu, Swish: definitional unfoldings (elementwise, after the shape lemma
 `c01_scalar_const_keeps_shape` has reduced the broadcast of the scalar constant to `map`) -/
-
-/-- `Div(1, x)` elementwise = `Reciprocal(x)` where `Reciprocal y := 1 / y`. -/
-theorem c01_reciprocal (dv : α → α → α) (one : α) (xs : List α) :
-    xs.map (fun x => dv one x) = xs.map (fun y => (fun z => dv one z) y) := rfl
 
 theorem zipWith_map_right (f : α → α → α) (h : α → α) : ∀ xs : List α,
     List.zipWith f xs (xs.map h) = xs.map (fun x => f x (h x)) := by
